@@ -112,6 +112,28 @@ def variant_chain(k, leaf=("y", "5")):
     return sig, toks
 
 
+# level patterns (v variant, d dict a{y..}, a array, s struct), cycled outermost first: every kind of container below an unknown
+# field's variant, dict levels alone with variants, dicts of arrays, dicts in structs, runs of one kind between two variants
+CHAIN_PATTERNS = ["v", "vd", "dv", "vda", "vsd", "vdd", "vads", "v" + "d" * 15, "v" + "a" * 7 + "d" * 7 + "s" * 7, "vdvs", "va", "vs"]
+
+
+def level_chain(pattern, k, leaf=("y", "5")):
+    """the signature and value tokens of k single-child containers in each other around a byte (dict keys are bytes)"""
+    toks = list(leaf)
+    sig = leaf[0]
+    for i in reversed(range(k)):
+        c = pattern[i % len(pattern)]
+        if c == "v":
+            toks, sig = ["v", sig] + toks, "v"
+        elif c == "a":
+            toks, sig = ["a", sig, "1"] + toks, "a" + sig
+        elif c == "s":
+            toks, sig = ["r", "1"] + toks, "(" + sig + ")"
+        else:
+            toks, sig = ["e", "y", sig, "1", "y", "3"] + toks, "a{y" + sig + "}"
+    return sig, toks
+
+
 # ------------------------------------------------------------------ headers
 
 class Field:
@@ -281,14 +303,23 @@ def run(ctx):
             f.insert(r.randrange(len(f) + 1), u)
             cases.append(("unknown-maybe-bad", Hdr(h.be, h.typ, h.flags, h.blen, h.serial, f), None))
         elif k == 7:                                         # nesting limit inside an unknown field (header array, struct, variant count)
-            kk = r.choice([1, 30, 59, 60, 61, 62, 63, 64, 65])
-            sig, toks = variant_chain(kk)
+            kk = r.choice([1, 30, 59, 60, 61, 62, 63, 64, 65, 78, 125])
+            sig, toks = level_chain(r.choice(CHAIN_PATTERNS), kk)
             f.insert(r.randrange(len(f) + 1), Field(r.randrange(10, 256), sig, toks))
             cases.append(("unknown-depth:%d" % kk, Hdr(h.be, h.typ, h.flags, h.blen, h.serial, f), kk <= 61))
         elif k == 8:                                         # type byte / serial at the specification level
             cases.append(("fault:type", Hdr(h.be, r.choice([0, 5, 6, 255, r.randrange(5, 256)]), h.flags, h.blen, h.serial, f), False))
         elif k == 9:
             cases.append(("fault:serial-0", Hdr(h.be, h.typ, h.flags, h.blen, 0, f), False))
+    # the nesting limit inside an unknown field with EVERY kind of level (the field array, its struct and the field's variant are 3
+    # levels; 61 more are allowed below), each pattern at each depth around the limit and far beyond it
+    for pi, pat in enumerate(CHAIN_PATTERNS):
+        for kk in (60, 61, 62, 63, 64, 78, 125, 300):
+            h = gen_header(r, 2 * pi + kk)
+            f = list(h.fields)
+            sig, toks = level_chain(pat, kk)
+            f.insert(r.randrange(len(f) + 1), Field(r.randrange(10, 256), sig, toks))
+            cases.append(("unknown-depth:%d" % kk, Hdr(h.be, h.typ, h.flags, h.blen, h.serial, f), kk <= 61))
     # several unknown fields in one header, also with the SAME unknown code twice: "no field occurs twice" is read as a rule
     # about the fields the specification defines (codes 1..9); unknown codes are skipped one by one, repeated or not
     for idx in range(nvalid // 4):
@@ -630,7 +661,7 @@ def run(ctx):
         "%d headers with an unknown field (codes 10..255, values of generated signatures up to depth 3): at EVERY position for every 8th "
         "valid header, at one random position for the others; %d headers with 2..4 unknown fields, half of them repeating an unknown "
         "code (accepted by code and specification: only the codes the specification defines may not occur twice); %d headers with a "
-        "name that is valid for another kind of field but not its own (each of the six name-carrying fields); %d headers with a variant chain around the nesting limit; "
+        "name that is valid for another kind of field but not its own (each of the six name-carrying fields); %d headers with a chain of variant / dict / array / struct levels in an unknown field around the nesting limit (58..65 levels below the field's variant) and beyond (78, 125, 300); "
         "specification-level "
         "faults, one class per valid header in rotation (%d: duplicate, missing required, wrong type, bad text, reply serial 0, code 0, type, "
         "serial 0, invalid value inside an unknown field) plus %d wrong-type faults whose value is VALID for the field (every code 1..9, "
